@@ -572,5 +572,11 @@ def r7_documented_methods(chk: Check) -> None:
     shared.documented_methods_rule(chk, "C07.R7", "filters")
 
 
+def rfwd_forwarding(chk: Check) -> None:
+    from . import shared
+
+    shared.forwarding_rule(chk, "C07.FWD", ('filters.py:', 'schemas.py:BaseSchema.include', 'schemas.py:BaseSchema.exclude', 'pytest/lazy.py:'), "filter keywords", 6)
+
+
 def rules(tier: str) -> list:  # type: ignore[type-arg]
-    return [r1_enumerators, r1b_should_skip, r1c_filterset, r2_links, r3_entry_points, r4_statistic, r5_cli_plumbing, r6_filter_ownership, r7_documented_methods]
+    return [r1_enumerators, r1b_should_skip, r1c_filterset, r2_links, r3_entry_points, r4_statistic, r5_cli_plumbing, r6_filter_ownership, r7_documented_methods, rfwd_forwarding]
